@@ -64,7 +64,8 @@ class SimFile(io.RawIOBase):
 
     def close(self):
         if not self.closed and not getattr(self, "_finalizing", False):
-            SIM.event("close", self.path, yield_=False)
+            # closing a handle is a file operation like any other: a scheduling point
+            SIM.event("close", self.path)
         super().close()
 
     def __del__(self):
